@@ -199,6 +199,9 @@ class Machine:
     def _color_matrix(self) -> None:
         color = self._reg.get_color()
         mat = self._reg.matrix
+        if mat is None:
+            logging.error('"stage" used outside of a "set ... begin" block.')
+            return
         rect = Rect(
             self._reg.first_row, self._reg.last_row,
             self._reg.first_column, self._reg.last_column)
